@@ -55,7 +55,7 @@ INT_RANGES = {
     "6byte-pos": (2**39, 2**47 - 1),
     "6byte-neg": (-(2**47), -(2**39) - 1),
     "8byte-pos": (2**55, 2**63 - 1),
-    "9byte-neg": (-(2**71), -(2**63) - 1),
+    "9byte-neg": (-(2**63) - 2**32, -(2**63) - 1),
 }
 
 
